@@ -13,7 +13,7 @@ LISTEN_SCHEDS = ["short-body", "reset-mid-body", "short-prefix", "eof-before-fra
 FALLBACK_SCHEDS = ["plain", "tc-tcp-ok", "tc-tcp-close", "tc-tcp-refused", "tc-tcp-short", "tc-tcp-garbage",
                    "tc-tcp-close-overlap", "udp-timeout"]
 HANDOVER_SCHEDS = ["reply-no-cancel", "cancel-after-reply", "deadline-after-reply", "cancel-before-reply"]
-EMPTYRESP_SCHEDS = ["no-rd", "opcode", "qr-set", "qdcount2", "qdcount0"]
+EMPTYRESP_SCHEDS = ["no-rd", "opcode", "qr-set", "qdcount2", "qdcount0", "refused", "reject", "servfail"]
 
 
 def fault_cases(rng, reps, start, race=False):
@@ -38,6 +38,8 @@ def fault_cases(rng, reps, start, race=False):
         add("sc=listen sched=%s" % sched)
     for sched in EMPTYRESP_SCHEDS:
         add("sc=emptyresp sched=%s" % sched)
+    for sched in ("hit-last-quarter", "hit-last-quarter", "hit-fresh"):
+        add("sc=prefetch sched=%s" % sched)
     return out
 
 
@@ -118,6 +120,9 @@ def ownership_oracle(line, res):
         why.append("a message was released by somebody else while its owner (the caller it was returned to) held it")
     if "same-object-twice" in ret:
         why.append("one message object was handed to two owners")
+    if "up:foreign-question" in ret:
+        why.append("the upstream was asked a question no client asked (a question read after its release, or another "
+                   "request's question): " + ",".join(t for t in ret.split(",") if t.startswith("up:foreign")))
     if any(t.endswith((":poison", ":bad-response", ":undecodable")) for t in ret.split(",")):
         why.append("a client of the router received poison / a response that is not the answer to its own query (%s)"
                    % ",".join(t for t in ret.split(",") if t.endswith((":poison", ":bad-response", ":undecodable"))))
@@ -142,7 +147,7 @@ def ownership_classify(line, res):
     f = gens.fields(line)
     if "tr" in f:
         return "%s-%s/%s/%s/%s" % (f.get("sc"), f.get("tr"), f.get("sched"), f.get("mode"), gens.fields(res).get("viol", "?"))
-    if f.get("sc") in ("listen", "fallback", "handover", "emptyresp"):
+    if f.get("sc") in ("listen", "fallback", "handover", "emptyresp", "prefetch"):
         return "%s/%s/%s/%s" % (f.get("sc"), f.get("sched"), f.get("mode"), gens.fields(res).get("viol", "?"))
     return "%s/%s/%s/%s" % (f.get("sc"), f.get("sched"), f.get("mode"), gens.fields(res).get("wire", "?"))
 
@@ -288,8 +293,11 @@ PROPS["C20"] = dict(
          "reuse / pipeline / QUIC transports; listen = the same from clients of the tcp / tls / quic / gnet listeners of the "
          "in-process router; fallback = udp upstream with a truncated reply and a failing TCP leg (closed, refused, short "
          "frame, garbage); handover = the caller's context ends right after it received the reply while the worker is "
-         "parked in its epilogue (contention on the transport mutex); emptyresp = not-implemented queries (RD clear, opcode, "
-         "QR set, QDCOUNT 0/2) through every listener followed by ordinary queries; "
+         "parked in its epilogue (contention on the transport mutex); emptyresp = header-only replies: not-implemented queries "
+         "(RD clear, opcode, QR set, QDCOUNT 0/2), no matching rule (REFUSED), a rejecting rule, a failing upstream (SERVFAIL) "
+         "through every listener, each followed by ordinary queries; prefetch = cache hits in the last quarter of the entry's "
+         "life (entry placed with chosen instants) through every listener: every query the upstream sees must be a question a "
+         "client asked; "
          "ownload: concurrent end-to-end load through the in-process router (udp/tcp/gnet/http/fasthttp listeners, "
          "udp-pipeline(+tcp fallback) + tcp-reuse + tcp-pipeline transports, small cache, hanging-up clients, clients whose "
          "frame ends early, not-implemented queries, upstreams that truncate over UDP and end TCP frames early) followed by direct "
